@@ -61,7 +61,11 @@ def diff(sel: List[int], fs: int) -> bool:
         ok = bytes(dg) == bytes(dr) or P.get("setsem", False)
         with notrace():
             res = parse_all(bytes(dg), phys)
-            ok = ok and agree(res) and res["g.flat"] == [norm_item(i) for i in items]
+            wanted = [norm_item(i) for i in items]
+            if P.get("project_triples"):
+                # documented: guess_stream routes quads to a TripleStream for GRAPHS-family logical types (graph names dropped)
+                wanted = [("T",) + i[1:4] for i in wanted]
+            ok = ok and agree(res) and res["g.flat"] == wanted
             if bytes(dr) != bytes(dg):
                 res2 = parse_all(bytes(dr), phys)
                 ok = ok and agree(res2) and sorted(map(repr, set(res2["g.flat"]))) == sorted(map(repr, set(res["g.flat"])))
